@@ -23,7 +23,7 @@ def run(ctx):
              "proper prefixes, one-byte extensions, every index separator and its neighbours, the empty string, keys below the first and above the last; get and get_prefix for all, "
              "get_range for all pairs on small sets and seeded pairs otherwise; distinct_nontrivial = distinct tables (content+configuration hash)",
         evaluations=lookups,
-        floors={"c02.tables": 250, "c02.tables_ge_3_blocks": 100, "lookups.get.exactly_on_separator": 200, "lookups.query_between_two_blocks": 200,
+        floors={"gen.models_with_separator_pairs": 40, "c02.tables": 250, "c02.tables_ge_3_blocks": 100, "lookups.get.exactly_on_separator": 200, "lookups.query_between_two_blocks": 200,
                 "lookups.get.before_first": 100, "lookups.get.after_last": 100, "lookups.get_prefix.empty_query": 100, "lookups.get_range.inverted": 500,
                 "lookups.get_range.equal_bounds": 100, "lookups.get.nonempty_answer": 5000, "lookups.get_range.nonempty_answer": 5000, "lookups.range_all_pairs_tables": 3},
         extra={"lookups": lookups})
